@@ -173,6 +173,13 @@ int ini_parse_stream(ini_reader reader, void* stream, ini_handler handler,
         else if (*prev_name && *start && start > line) {
             /* Non-blank line with leading whitespace, treat as continuation
                of previous name's value (as per Python configparser). */
+#if INI_ALLOW_INLINE_COMMENTS
+            /* Strip inline comments here too, as for regular name=value lines (and as upstream inih does) */
+            end = find_chars_or_comment(start, NULL);
+            if (*end)
+                *end = '\0';
+            rstrip(start);
+#endif
             if (!HANDLER(user, section, prev_name, start) && !error)
                 error = lineno;
         }
